@@ -255,6 +255,11 @@ def real_pairs(ctx):
                 if mult is not None:
                     opt["CROP_PRODUCTION_MULTIPLIER"] = mult
                 pairs.append({"iso3": iso, "options": opt})
+    # custom column override of the relocation exponent (ordinary option key = csv column, through apply_custom_parameters):
+    # every shipped row has 0.796, so only an override shows whether each preset really uses the row's exponent
+    for iso in ["ARG", rng.choice(isos)] + ([] if ctx.quick else rng.sample(isos, 20)):
+        for e in (0.6, 0.9):
+            pairs.append({"iso3": iso, "options": dict(REAL_BASE, power_law_improvement=e)})
     return pairs
 
 
